@@ -52,6 +52,7 @@ type Explorer struct {
 	onState  func(w *World, path []Event) // optional per-state hook (C11 sweep, liveness oracles)
 	onTerminal func(w *World, path []Event)
 	stopOnViolation bool
+	prop string // property under check
 }
 
 func newExplorer(sc *Scenario, budget time.Duration) *Explorer {
@@ -72,7 +73,11 @@ func (x *Explorer) replay(path []Event) *World {
 func (x *Explorer) check(w *World, path []Event) bool {
 	bad := false
 	for _, v := range w.viol {
-		bad = true
+		// exploration continues past violations of other properties (they are reported as side findings
+		// and decided by their own checks); it stops at a violation of the property under check
+		if x.prop == "" || v.Prop == x.prop {
+			bad = true
+		}
 		if x.foundKey[v.Key] {
 			continue
 		}
@@ -123,7 +128,7 @@ type cev struct {
 	p    H
 }
 
-var evKinds = []string{"deliver", "dup", "timeout", "stale", "reset", "tx", "newtx", "sync", "perm", "restart", "byz", "inj", "skip"}
+var evKinds = []string{"deliver", "dup", "timeout", "stale", "reset", "tx", "newtx", "sync", "perm", "restart", "byz", "inj", "skip", "hold", "tick"}
 
 func compact(e Event) cev {
 	return cev{uint8(slices.Index(evKinds, e.K)), uint8(e.N), int32(e.A), int32(e.B), e.P}
@@ -182,8 +187,7 @@ func (x *Explorer) bfs() {
 				w2.apply(e)
 				x.res.Transitions++
 				np := append(append(make([]cev, 0, len(path)+1), path...), compact(e))
-				if len(w2.viol) > 0 {
-					x.check(w2, expand(np))
+				if len(w2.viol) > 0 && x.check(w2, expand(np)) {
 					continue
 				}
 				k := w2.key()
